@@ -79,7 +79,7 @@ fn add_failure_injection(p: &mut Pool, r: &mut crate::rng::Rng) {
         "{% if i == 2 and fail == 'loop' %}{{ nope }}{% endif %}{% if i == 3 %}{% break %}{% endif %}{% endfor %}",
         "{% for i in (1..2) %}{% tablerow j in (1..2) %}{% if j == 2 and fail == 'after-break' %}{{ nope }}{% endif %}",
         "{% if j == 1 and fail == 'after-break' %}{% break %}{% endif %}c{% endtablerow %}{% endfor %}",
-        "{% assign keep = tagv %}{% include pname %}{% render pname %}{% include 'pf' %}{% render 'pf', fail: fail, tagv: tagv %}|{{ keep }}|{% cycle 'z': 1, 2, 3 %}{% increment cnt %}"
+        "{% assign keep = tagv %}{% include pname %}{% render pname, tagv: tagv %}{% include 'pf' %}{% render 'pf', fail: fail, tagv: tagv %}|{{ keep }}|{% cycle 'z': 1, 2, 3 %}{% increment cnt %}"
     );
     p.partials.push(("pf".into(), "<{{ tagv }}{% capture pc %}in{% if fail == 'partial' %}{{ nope }}{% endif %}{% endcapture %}{{ pc }}{% increment cnt %}>".into()));
     p.partials.push(("pg0".into(), "(g0:{{ tagv }})".into()));
